@@ -4,6 +4,12 @@ import sys
 from .replay import replay
 
 if __name__ == '__main__':
+    import os
+    if os.environ.get('PYTHONHASHSEED') != '0':
+        # the shards run with PYTHONHASHSEED=0; set iteration order inside the library can
+        # influence event numbering (fault index, schedule step) of a recorded case
+        os.execve(sys.executable, [sys.executable, '-m', 'fbverif.replaycase'] + sys.argv[1:],
+                  dict(os.environ, PYTHONHASHSEED='0'))
     rec = json.load(open(sys.argv[1]))
     case = rec.get('case', rec)
     if 'sig' in rec:
